@@ -3,40 +3,121 @@ recorded from the real code and replayed by TLC through Compile + Exec + the cur
 import json
 
 import beanquery
+from beanquery.parser import ast
 
 from harness import bql, selectq, selectcheck
 from harness import tables as ht
 from harness.core import MachineryError
 
 
+UNIVERSE = dict(selectcheck.COLS)
+
+
+def table_version(ctx, gen, name):
+    """a table value for the registry: the full column set or a permuted subset of it, with fresh random rows"""
+    rng = ctx.rng
+    cols = list(selectcheck.COLS)
+    if rng.random() < 0.45:
+        cols = rng.sample(cols, rng.randint(2, len(cols)))
+    rows = gen.table(rng.choice([0, 1, 2, 5, 9]))
+    names = [c for c, _ in cols]
+    pyrows = [tuple(bql.to_py(r[c]) for c in names) for r in rows]
+    ev = {'op': 'register', 'name': name, 'sch': {c: selectcheck.SCH[c] for c in names}, 'cols': names,
+          'rows': [{c: r[c] for c in names} for r in rows]}
+    return ht.HarnessTable(name, cols, pyrows), ev
+
+
+def retarget(stmt, name):
+    """the same parsed statement, pointed at another table name (the innermost FROM of a nested statement)"""
+    node = stmt
+    while isinstance(node.from_clause, ast.Select):
+        node = node.from_clause
+    if isinstance(node.from_clause, ast.Table) and node.from_clause.name != name:
+        node.from_clause = ast.Table(name)
+
+
 def run(ctx, nfiles, ntraces, maxlen):
     total = 0
     rejected = 0
+    nreg = nreexec = 0
     for fno in range(nfiles):
         gen = selectcheck.RandomQueries(ctx.rng)
-        rows = gen.table(ctx.rng.choice([0, 2, 5, 9, 14]))
-        pyrows = [tuple(bql.to_py(r[c]) for c, _ in selectcheck.COLS) for r in rows]
         path = ctx.path('api_%d.ndjson' % fno)
-        events = [{'op': 'table', 'sch': selectcheck.SCH, 'rows': rows}]
+        events = [{'op': 'header'}]
         for tid in range(ntraces):
-            conn = ht.connection(ht.HarnessTable('g', selectcheck.COLS, pyrows))
+            conn = beanquery.Connection()
             cursors = {}
             events.append({'op': 'begin', 'tid': tid})
-            for _ in range(ctx.rng.randint(2, maxlen)):
+            t, rev = table_version(ctx, gen, 'g')
+            conn.tables['g'] = t
+            rev['tid'] = tid
+            events.append(rev)
+            pool = []          # statements (abstract, AST object) executed so far: re-executed as the SAME object later
+            # half of the histories open with a scripted situation (then go on at random): a statement executed, the table
+            # replaced (other rows / other columns) or a second table registered, the SAME statement object executed again
+            script = []
+            if ctx.rng.random() < 0.5:
+                kind = ctx.rng.choice(['star', 'star', 'plain', 'any'])
+                second = ctx.rng.choice(['g', 'g', 'h'])
+                script = [('exec-new', kind, 'g'), ('fetch',), ('register', second), ('exec-same', second), ('fetchall',)]
+            forced = None
+            for _ in range(ctx.rng.randint(2, maxlen) + len(script)):
                 c = ctx.rng.randint(1, 2)
                 cur = cursors.setdefault(c, conn.cursor())
-                ev = {'tid': tid, 'c': c, 'arg': 0, 'err': '', 'ret': [], 'desc': [], 'q': {}}
+                ev = {'tid': tid, 'c': c, 'arg': 0, 'err': '', 'ret': [], 'desc': [], 'q': {}, 'name': ''}
                 k = ctx.rng.random()
-                if k < 0.3 or cur.description is None and k < 0.7:
-                    q = gen.query(ctx.rng.choice(['plain', 'order', 'group', 'pivot', 'order']))
-                    if q['pivot']:
-                        q['pivot'] = []
-                    if ctx.rng.random() < 0.12:
-                        q['targets'] = q['targets'] + [{'e': {'k': 'col', 'n': 'nope'}, 'as': 'bad'}]
+                forced = script.pop(0) if script else None
+                if forced:
+                    k = {'exec-new': 0.2, 'exec-same': 0.2, 'register': 0.0, 'fetch': 0.7, 'fetchall': 0.95}[forced[0]]
+                if k < 0.15:
+                    name = forced[1] if forced else ctx.rng.choice(['g', 'g', 'h', 'j'])
+                    t, rev = table_version(ctx, gen, name)
+                    conn.tables[name] = t          # a new table, or the replacement of a registered one
+                    rev['tid'] = tid
+                    events.append(rev)
+                    nreg += 1
+                    continue
+                if k < 0.4 or cur.description is None and k < 0.7:
+                    name = ctx.rng.choice(['g', 'g', 'g', 'h', 'j'])
+                    if forced and forced[0] == 'exec-same' and pool:
+                        q, stmt = pool[-1]
+                        name = forced[1]
+                        nreexec += 1
+                    elif not forced and pool and ctx.rng.random() < 0.45:
+                        stars = [x for x in pool if x[0].get('star')]
+                        q, stmt0 = ctx.rng.choice(stars if stars and ctx.rng.random() < 0.5 else pool)
+                        stmt = stmt0 if ctx.rng.random() < 0.7 else None
+                        nreexec += 1
+                    else:
+                        fam = ctx.rng.choice(['plain', 'order', 'group', 'pivot', 'order', 'nested'])
+                        if forced and forced[0] == 'exec-new':
+                            name = forced[2]
+                            fam = 'plain' if forced[1] in ('star', 'plain') else fam
+                        q = gen.query(fam)
+                        selectcheck.strip_private(q)
+                        if q['pivot']:
+                            q['pivot'] = []
+                        if ctx.rng.random() < 0.2 or (forced and forced[1] == 'star'):
+                            q['star'] = True
+                            q['targets'] = []
+                            q['group'] = []
+                            q['having'] = {'k': 'none'}
+                            q['order'] = [o for o in q['order'] if o['r']['k'] == 'expr' and o['r']['e'].get('k') == 'col']
+                        elif ctx.rng.random() < 0.1:
+                            q['targets'] = q['targets'] + [{'e': {'k': 'col', 'n': 'nope'}, 'as': 'bad'}]
+                        stmt = None
+                    if '"insub"' in json.dumps(q):
+                        name = 'g'          # IN-subqueries are written against #g: keep the statement on the same base table
                     ev['op'] = 'execute'
                     ev['q'] = q
+                    ev['name'] = name
                     try:
-                        cur.execute(selectq.query_ast(q, 'g'))
+                        if stmt is None:
+                            stmt = selectq.query_ast(q, name)
+                            pool.append((q, stmt))
+                        else:
+                            retarget(stmt, name)
+                        cur.execute(stmt)
                         ev['desc'] = [[col.name, ([t for t, v in selectq.TYPEMAP.items() if v is col.datatype] or ['?'])[0]] for col in cur.description]
                     except beanquery.CompilationError:
                         ev['err'] = 'CompilationError'
@@ -44,11 +125,11 @@ def run(ctx, nfiles, ntraces, maxlen):
                         continue
                     except Exception as ex:  # noqa
                         ev['err'] = type(ex).__name__
-                elif k < 0.55:
+                elif k < 0.6:
                     ev['op'] = 'fetchone'
                     r = cur.fetchone()
                     ev['ret'] = selectq.proj_rows([r] if r is not None else [])
-                elif k < 0.85:
+                elif k < 0.87:
                     ev['op'] = 'fetchmany'
                     ev['arg'] = ctx.rng.choice([1, 2, 3, 10])
                     ev['ret'] = selectq.proj_rows(cur.fetchmany(ev['arg']))
@@ -73,10 +154,12 @@ def run(ctx, nfiles, ntraces, maxlen):
                 rejected += 1
                 ctx.violation('api:%s:%s' % (ev['op'], ev.get('err') or 'mismatch'),
                               'recorded API event not explained by Beanquery.tla',
-                              {'event': ev, 'text': selectq.query_text(ev['q'], 'g') if ev.get('q') else None, 'history': hist[-8:], 'rows': rows}, 'C2S')
+                              {'event': ev, 'text': selectq.query_text(ev['q'], ev.get('name') or 'g') if ev.get('q') else None, 'history': hist[-10:]}, 'C2S')
         if res.post_failed or res.depth != len(events):
             raise MachineryError('Trace_Beanquery did not consume the trace: depth %d, lines %d' % (res.depth, len(events)))
         total += len(events)
         ctx.case('api-file-%d' % fno, n=len(events))
     ctx.traces += nfiles * ntraces - rejected
-    ctx.leg('C2S-api', histories=nfiles * ntraces, events=total, rejected=rejected)
+    ctx.leg('C2S-api', histories=nfiles * ntraces, events=total, rejected=rejected, registrations=nreg, statements_reexecuted=nreexec)
+    if nreg < 10 or nreexec < 10:
+        raise MachineryError('vacuity: too few table replacements / re-executed statements in the API histories')
